@@ -173,7 +173,8 @@ theorem cut_tile_commutes {ds s : DSetData} (hv : ValidSet ds) (hdim : ds.dim = 
     ((∀ k, k < cut.length → ds.opU 0 (cut.getD k 0) = cut.getD (if k % 2 = 0 then k + 1 else k - 1) 0) →
      (∀ k, k < cut.length → ds.opU 2 (ds.opU 0 (cut.getD k 0)) = ds.opU 0 (ds.opU 2 (cut.getD k 0))) →
      ∀ c, ds.size < c → c ≤ ds.size + 2 * cut.length → s.opU 2 (s.opU 0 c) = s.opU 0 (s.opU 2 c)) :=
-  cutTile_commutes hv hdim hcut h
+  let ⟨a, b, c, d, e, f, _⟩ := cutTile_commutes hv hdim hcut h
+  ⟨a, b, c, d, e, f⟩
 
 /-- `cut_tile(ex8, [1, 2])` returns (opposites 4, 3), and 1, 2 are 0-adjacent -/
 example : (∃ s, cutTile ex8 [1, 2] = .ok s) ∧ ex8.opU 0 1 = 2 ∧ ex8.opU 0 2 = 1 :=
